@@ -18,10 +18,11 @@ fn main() {
 
     arith::window_cases(&mut cs, &mut st, &[K_ROW, K_COL], &deltas[..4], a.thorough);
     ops::cmap_window(&mut cs, &mut st, &[K_ROW, K_COL], &[1, 2, 4, 7]);
+    ops::valid_cases(&mut cs, &mut st, &[1, 2, 7, 0]);
     ops::app_window(&mut cs, &mut st, &[K_ROW, K_COL], if a.thorough { &deltas } else { &[1, 2, 7] }, a.thorough);
 
-    // F27: an insertion index below 1 is not a position of the sheet
-    for (rows, at, k) in [(true, 0, 2), (true, -3, 1), (false, 0, 1)] {
+    // F27 (fixed in 3e01966, class kept live): an insertion index outside 1..=LAST is not a position of the sheet
+    for (rows, at, k) in [(true, 0, 2), (true, -3, 1), (false, 0, 1), (false, -1, 2), (true, LAST_ROW + 1, 1), (false, LAST_COLUMN + 1, 1)] {
         let mut m = ops::new_model();
         m.set_user_input(0, 2, 2, "1".to_string()).unwrap();
         let r = if rows { m.insert_rows(0, at, k) } else { m.insert_columns(0, at, k) };
